@@ -15,6 +15,7 @@ func init() {
 
 func checkC16(c *Ctx) {
 	l := c.L
+	checkMemoAfterIteratorVerdict(c, "ORDER-memo-after-verdict")
 	c.rule("DOM-format-dispatch", "legacy / new decoder and key-space are selected by the key length consistently", 5)
 	c.rule("FLOW-legacy-node", "legacy decoder: isLegacy set, hash from the storage key, version from the body", 3)
 	c.rule("PASS-legacy-root-fallback", "root lookup consults the legacy root key-space before 'version does not exist'", 1)
@@ -701,5 +702,65 @@ func checkLegacyRootConsumers(c *Ctx, rule string) {
 	}
 	if n == 0 {
 		c.anchorMissing(rule, "no legacy root record consumer found in DeleteVersionsFrom")
+	}
+	// ... and whatever it does with the nodes, the callback deletes the root RECORD of every version it is handed
+	// (also the record of an empty version: an erased version whose record stays is still listed, and re-committing
+	// its number is checked against the stale record)
+	for _, cb := range dvf.AnonFuncs {
+		if len(cb.Params) < 2 {
+			continue
+		}
+		key := cb.Params[0]
+		var delOf func(f *ssa.Function, p *ssa.Parameter, depth int) func(ssa.Instruction) bool
+		delOf = func(f *ssa.Function, p *ssa.Parameter, depth int) func(ssa.Instruction) bool {
+			return func(in ssa.Instruction) bool {
+				cc := callCommon(in)
+				if cc == nil {
+					return false
+				}
+				if cc.IsInvoke() && cc.Method.Name() == "Delete" && len(cc.Args) == 1 && stripTrivial(cc.Args[0]) == ssa.Value(p) {
+					return true
+				}
+				g := staticCallee(cc)
+				if g == nil || !l.inModule(g) || depth >= 2 || len(g.Blocks) == 0 {
+					return false
+				}
+				for i, a := range cc.Args {
+					if stripTrivial(a) == ssa.Value(p) && i < len(g.Params) {
+						q := mustState(g, false, delOf(g, g.Params[i], depth+1), nil)
+						all := true
+						for _, r := range successReturns(g) {
+							all = all && q(r)
+						}
+						if all {
+							return true
+						}
+					}
+				}
+				return false
+			}
+		}
+		isDel := delOf(cb, key, 0)
+		q := mustState(cb, false, isDel, nil)
+		ok := true
+		var bad ssa.Instruction
+		for _, r := range returnsOf(cb) {
+			v := stripTrivial(retVal(r, 0))
+			if call, isCall := v.(*ssa.Call); isCall && isDel(call) {
+				continue
+			}
+			if errNilness(v, r.Block(), 0) > 0 {
+				continue
+			}
+			if !q(r) {
+				ok, bad = false, r
+			}
+		}
+		pos := l.pos(cb.Pos())
+		if bad != nil {
+			pos = l.ipos(bad)
+		}
+		c.decide(rule, l.fname(cb)+" deletes the root record of every erased legacy version", pos, ok, "every success return passes a Delete of the record's key",
+			"the rollback's legacy walk can leave the root record of an erased version in place (e.g. an early return for the empty version): the version is still listed, the latest legacy version points above the rollback target, and re-committing its number is compared with the stale record")
 	}
 }
